@@ -394,6 +394,46 @@ def run(R):
                        'building one packet changes the name object the application keeps using', site(cx, n.ast))
         else:
             R.ok('C01.PRV.2', inst, site(cx, cx.f.node), f'{len(edits)} in-place edits, all on fresh lists')
+    # ------------------------------------------------------------------ PRV.3 the final name shows the digest that was written
+    R.ob('C01.PRV.3', 'InterestNameField.encode_into: wherever the digest buffer is located in the wire (appended component, or a component '
+                      'the caller already supplied), the final name gets the wire region of that component - not the caller\'s placeholder')
+    ne3 = ctx(R, TM + '.InterestNameField.encode_into')
+    # the list get_final_name returns: markers[..##preprocessed_name], possibly through a local alias
+    gf = ctx(R, TM + '.InterestNameField.get_final_name')
+    keys = {ast.unparse(r.ast.value.slice) for r in returns(gf) if isinstance(r.ast.value, ast.Subscript)}
+    R.need(len(keys) == 1, 'get_final_name: the final name is not read from one marker')
+    fkey = keys.pop()
+    aliases = {nm for n_ in ne3.cfg.nodes for (nm, v) in ne3.cfg.defs_of(n_) if isinstance(v, ast.Subscript) and ast.unparse(v.slice) == fkey}
+
+    def is_final(e):
+        return (isinstance(e, ast.Subscript) and ast.unparse(e.slice) == fkey) or (isinstance(e, ast.Name) and e.id in aliases)
+
+    def blocks3(node):
+        for x in ast.walk(node):
+            for fld in ('body', 'orelse'):
+                b = getattr(x, fld, None)
+                if isinstance(b, list) and b and isinstance(b[0], ast.stmt):
+                    yield b
+    ndig = 0
+    for b in blocks3(ne3.f.node):
+        for st_ in b:
+            if isinstance(st_, ast.Assign) and len(st_.targets) == 1 and ast.unparse(st_.targets[0]) == 'digest_buf' and isinstance(st_.value, ast.Subscript) \
+                    and ast.unparse(st_.value.value) == 'wire':
+                ndig += 1
+                inst = f'{ne3.qual} :: `{norm(st_)}`'
+                # in the same block: a wire slice is appended to / stored into the final-name list
+                put = [t for t in b if any(
+                    (isinstance(c, ast.Call) and callee_attr(c) == 'append' and is_final(c.func.value) and c.args and isinstance(c.args[0], ast.Subscript)
+                     and ast.unparse(c.args[0].value) == 'wire') for c in ast.walk(t)) or (
+                    isinstance(t, ast.Assign) and isinstance(t.targets[0], ast.Subscript) and is_final(t.targets[0].value) and isinstance(t.value, ast.Subscript)
+                    and ast.unparse(t.value.value) == 'wire')]
+                if put:
+                    R.ok('C01.PRV.3', inst, site(ne3, st_))
+                else:
+                    R.fail('C01.PRV.3', inst, ne3.qual, st_, 'the digest is written into this component of the wire, but the final name keeps the component the caller '
+                           'supplied (a placeholder): make_interest(need_final_name=True) reports a name that is not the one in the packet, and an Interest expressed '
+                           'with a placeholder digest is registered under a name no Data can match (repro notes/repro/e18.py)', site(ne3, st_))
+    R.need(ndig >= 2, f'InterestNameField.encode_into: only {ndig} digest buffer locations found (appended and pre-existing expected)')
     # the parameters-digest component that the round trip must preserve is the digest of the packet as sent: decided by the C02 rules
     from .common import shared_obligations
     R.ob('C01.SHR.1', 'shared with C02: the parameters digest is computed after the signature, over the range that ends at the shrunk signature, '
